@@ -364,6 +364,8 @@ def step (w : World) (j : Json) : World × List String :=
       | _ => .transient (jNat j "wraps" + 1)      -- RegisterRevocation wraps once more
     let (o, n') := handleRevocationEvent keyEnv w.b r fault
     ({ w with b := n' }, ["adeliver " ++ (match o with | .done => "done" | .retry => "retry" | .fatal => "fatal")])
+  -- the ambassador's wiring (Configure): only payload events of revocation transactions reach RegisterRevocation
+  | "awire" => (w, ["awire vcr_revocations:[rev=stored vc=- txevent=-] vcr_vcs:[rev=- vc=- txevent=-]"])
   | "averify" =>
     let id := jStr j "id"
     let c : Cred := { id := some id, issuer := prefixOf id, statuses := none }
@@ -382,7 +384,74 @@ def step (w : World) (j : Json) : World × List String :=
     ({ w with hosts := alPut w.hosts url f }, ["vhost"])
   | o => (w, ["bad-op:" ++ o])
 
+/-- driver state: the world plus, for the issuer harness, the credentials issued in this scenario and which of them the
+    issuer's own store already holds a network revocation for -/
+structure St where
+  w : World := emptyWorld
+  issued : Array (String × String × Option StatusEntry) := #[]   -- (id, issuer, status entry)
+  netRevoked : List Nat := []
+
+def iDids : List String :=
+  ["did:nuts:AAAAAAAAAAAAAAAAAAAAAAAAAAAAAAAAAAAAAAAAAAAA", "did:nuts:BBBBBBBBBBBBBBBBBBBBBBBBBBBBBBBBBBBBBBBBBBBB",
+   "did:web:example.com:iam:alice", "did:web:example.com:iam:bob"]
+
+def keyEnvI : KeyEnv :=
+  { resolveKey := fun vm _ => if (iDids.map (· ++ "#k1")).contains vm then some vm else none
+    sigOK := fun pk _ sig => sig == "sig:" ++ pk }
+
+/-- fourth harness (vcr/issuer): issuer and verifier of one node (node 0) -/
+def stepSt (st : St) (j : Json) : St × List String :=
+  match jStr j "op" with
+  | "ireset" => ({ w := { a := { base := "https://node.example", dids := iDids }, b := { base := bases[1]! } } }, ["ireset"])
+  | "iissue" =>
+    let issuer := jStr j "issuer"
+    let k := st.issued.size
+    let id := s!"{issuer}#{k}"
+    if jBool j "statuslist" then
+      let ew : EWorld := { node := st.w.a, threads := [{ issuer := issuer }], now := st.w.now }
+      let ew' := soloFrom 40 ew 0
+      match (ew'.threads[0]?.map (·.phase) : Option EPhase) with
+      | some (EPhase.done l i) =>
+        let page := match l with | .sl _ _ p => p | .raw _ => 0
+        ({ st with w := { st.w with a := ew'.node }, issued := st.issued.push (id, issuer, some { list := l, idx := some (i : Int) }) },
+         [s!"iissue ok k={k} idprefix=true status=StatusList2021Entry/revocation#{issuer}/{page}#{i}"])
+      | _ => (st, ["iissue err"])
+    else
+      ({ st with issued := st.issued.push (id, issuer, none) }, [s!"iissue ok k={k} idprefix=true status=none"])
+  | "irevoke" =>
+    let k := jNat j "k"
+    match st.issued[k]? with
+    | none => (st, ["irevoke none"])
+    | some (id, issuer, status) =>
+      let c : Cred := { id := some id, issuer := issuer, statuses := status.map (fun e => [e]) }
+      let kid := issuer ++ "#k1"
+      match issuerRevokeRoute (hasSub issuer "did:nuts:") (st.netRevoked.contains k) c id kid ("sig:" ++ kid) 1 with
+      | .alreadyRevoked => (st, ["irevoke revoked"])
+      | .network r =>
+        let st1 := { st with netRevoked := k :: st.netRevoked }
+        let line := s!"irevoke ok net subject={r.subject == id} issuer={r.issuer == issuer} published=1"
+        if jBool j "deliver" then
+          match registerRevocation keyEnvI st1.w.a r with
+          | .ok n' => ({ st1 with w := { st1.w with a := n' } }, [line ++ " register=ok"])
+          | res => (st1, [line ++ " register=" ++ resErr res])
+        else (st1, [line])
+      | .statusList e =>
+        match revoke env st.w.now st.w.a id e with
+        | .ok n' => ({ st with w := { st.w with a := n' } }, ["irevoke ok statuslist"])
+        | res => (st, ["irevoke " ++ resErr res])
+      | .statusNotFound => (st, ["irevoke err:status-not-found"])
+  | "iverify" =>
+    match st.issued[jNat j "k"]? with
+    | none => (st, ["iverify none"])
+    | some (id, issuer, status) =>
+      let c : Cred := { id := some id, issuer := issuer, statuses := status.map (fun e => [e]) }
+      let (v, w') := verifyFull env false st.w c false
+      ({ st with w := w' }, ["iverify " ++ verdictStr v])
+  | _ =>
+    let (w', ls) := step st.w j
+    ({ st with w := w' }, ls)
+
 end Nuts.Drv.C11
 
 def main : IO Unit := do
-  Nuts.Drv.loop (← IO.getStdin) (← IO.getStdout) Nuts.Drv.C11.step Nuts.Drv.C11.emptyWorld
+  Nuts.Drv.loop (← IO.getStdin) (← IO.getStdout) Nuts.Drv.C11.stepSt ({} : Nuts.Drv.C11.St)
